@@ -232,3 +232,6 @@ pub fn p_qpack_lookup_index_sound() {
     check_lookup("x-not-in-table", "", false);
     check_lookup("", "", false);
 }
+
+// (`Encoder::encode` itself does not terminate in CBMC even for one concrete field - Vec growth +
+// iterator chain + Huffman tables; it is verified by the Verus unit `qpack_encode`.)
